@@ -110,8 +110,12 @@ def gen_bounds(rng, d):
     xl = np.empty(d)
     xu = np.empty(d)
     for j in range(d):
-        k = rng.randint(8)
-        if k == 0:      # zero width
+        k = rng.randint(9)
+        if k == 8:      # denormal-scale width around zero
+            w = float(rng.choice([1e-18, 1e-20, 3e-17, 1e-300]))
+            xl[j] = -w if rng.randint(2) else 0.0
+            xu[j] = w
+        elif k == 0:      # zero width
             xl[j] = xu[j] = rng.choice([0.0, 1.0, -3.5, rng.uniform(-10, 10)])
         elif k == 1:    # tiny
             xl[j] = rng.uniform(-5, 5)
